@@ -1739,6 +1739,12 @@ impl DnsOutgoing {
         self.id = id;
     }
 
+    /// Marks the message as multicast (the default: the id is sent as 0, per
+    /// RFC 6762 section 18.1) or as unicast (the id set by `set_id` is sent).
+    pub fn set_multicast(&mut self, multicast: bool) {
+        self.multicast = multicast;
+    }
+
     pub const fn is_query(&self) -> bool {
         (self.flags & FLAGS_QR_MASK) == FLAGS_QR_QUERY
     }
